@@ -863,6 +863,46 @@ fn c16_misc(_input: &Input, obs: &mut Obs) -> Result<(), Fail> {
             return Err(Fail::new("C16:status", format!("two status codes share {}", v)));
         }
     }
+    // the number on the wire: every status x version written through sinks that take at most k
+    // bytes per call (k = 1..20, and unlimited), optionally interrupting the first call, is read
+    // back by the independent reader as the same three-digit number
+    struct Drip {
+        out: Vec<u8>,
+        k: usize,
+        interrupt_first: bool,
+    }
+    impl Write for Drip {
+        fn write(&mut self, buf: &[u8]) -> std::io::Result<usize> {
+            if self.interrupt_first {
+                self.interrupt_first = false;
+                return Err(std::io::Error::from(std::io::ErrorKind::Interrupted));
+            }
+            let t = buf.len().min(self.k);
+            self.out.extend_from_slice(&buf[..t]);
+            Ok(t)
+        }
+        fn flush(&mut self) -> std::io::Result<()> {
+            Ok(())
+        }
+    }
+    for (code, _) in STATUS.iter() {
+        for v in 0..2u8 {
+            for k in (1..=20usize).chain([usize::MAX]) {
+                for interrupt_first in [false, true] {
+                    let resp = Response::new(version_of(v), status_of(*code));
+                    let mut sink = Drip { out: Vec::new(), k, interrupt_first };
+                    n += 1;
+                    if let Err(e) = resp.write_all(&mut sink) {
+                        return Err(Fail::new("C16:status", format!("writing status {} through a sink taking {} bytes per call failed: {}", code, k, e)));
+                    }
+                    let (rs, end) = rr_parse(&sink.out);
+                    if end != RrEnd::Clean || rs.len() != 1 || rs[0].code != *code || rs[0].version != v {
+                        return Err(Fail::new("C16:status", format!("status {} (HTTP/1.{}) written through a sink taking {} bytes per call reads back as \"{}\"", code, v, k, esc(&sink.out[..sink.out.len().min(40)]))));
+                    }
+                }
+            }
+        }
+    }
     obs.extra_evals = n - 1;
     obs.extra_nontrivial = n;
     obs.render = "media types x 0..2 whitespace items each side (8 kinds) + non-whitespace padding; whitespace runs of every length 0..300 and up to 70000 on either or both sides; padded methods/versions; round trips; 11 status codes".into();
@@ -1380,11 +1420,83 @@ fn c17_long_enum(tier: Tier, shard: u64, nshards: u64, f: &mut dyn FnMut(&[u64])
     }
 }
 
+/// absolute-form requests with an authority of `alen` bytes: the path behind it is dispatched
+/// like the same path in origin form. params = [alen]
+fn c17_authority(input: &Input, obs: &mut Obs) -> Result<(), Fail> {
+    let alen = input.params()[0] as usize;
+    let mut cnt = 0u64;
+    for (pi, prefix) in ["", "/api"].iter().enumerate() {
+        let log = Arc::new(Mutex::new(Vec::new()));
+        let mut router: HttpRoutes<u32> = HttpRoutes::new("S".to_string(), prefix.to_string());
+        let paths = ["/real", "/", "/h", "/real/x"];
+        for (i, path) in paths.iter().enumerate() {
+            if router.add_route(method_of(0), path.to_string(), Box::new(Rec { id: i, log: log.clone() })).is_err() {
+                return Err(Fail::new("C17:add-route", format!("distinct route {:?} refused", path)));
+            }
+        }
+        for fill in ["h", "\u{e9}"] {
+            if alen % fill.len() != 0 {
+                continue;
+            }
+            let authority = fill.repeat(alen / fill.len());
+            for (k, probe) in ["/real", "/", "/h", "/real/x", "/none", ""].iter().enumerate() {
+                let uri = format!("http://{}{}{}", authority, if probe.is_empty() { "" } else { prefix }, probe);
+                let bytes = format!("GET {} HTTP/1.1\r\n\r\n", uri);
+                let req = match Request::try_from(bytes.as_bytes(), None) {
+                    Ok(r) => r,
+                    Err(e) => return Err(Fail::new("C17:request", format!("absolute-form request with an authority of {} bytes rejected: {:?}", alen, e))),
+                };
+                log.lock().unwrap().clear();
+                let resp = router.handle_http_request(&req, &(k as u32));
+                let calls = log.lock().unwrap().clone();
+                let want = paths.iter().position(|x| x == probe);
+                cnt += 1;
+                match want {
+                    Some(id) => {
+                        if calls != vec![(id, k as u32)] {
+                            return Err(Fail::new("C17:dispatch", format!("http://<{} bytes>{}{} (prefix {:?}, #{}): invoked {:?}, expected handler {}", alen, prefix, probe, prefix, pi, calls, id)));
+                        }
+                    }
+                    None => {
+                        if !calls.is_empty() || resp.status() != StatusCode::NotFound {
+                            return Err(Fail::new("C17:dispatch", format!("http://<{} bytes>{} matches no route: invoked {:?}, status {:?}", alen, probe, calls, resp.status())));
+                        }
+                    }
+                }
+            }
+        }
+    }
+    obs.extra_evals = cnt.saturating_sub(1);
+    obs.extra_nontrivial = cnt;
+    if obs.want_render {
+        obs.render = format!("authority of {} bytes x 2 prefixes x 6 paths", alen);
+    }
+    Ok(())
+}
+
+fn c17_authority_enum(tier: Tier, shard: u64, nshards: u64, f: &mut dyn FnMut(&[u64]) -> bool) {
+    let mut lens: Vec<u64> = (0..=300).collect();
+    for centre in [1u64 << 10, 1 << 12, 1 << 15, 1 << 16, 1 << 17] {
+        lens.extend(centre - 24..=centre + 24);
+    }
+    if tier != Tier::Quick {
+        for centre in [1u64 << 20, 1 << 24] {
+            lens.extend(centre - 12..=centre + 12);
+        }
+    }
+    for (c, l) in lens.iter().enumerate() {
+        if c as u64 % nshards == shard && !f(&[*l]) {
+            return;
+        }
+    }
+}
+
 fn c17_plan(tier: Tier) -> Vec<Job> {
     let q = tier == Tier::Quick;
     vec![
         Job { sub: "tables", kind: JobKind::Pbt { cases: if q { 300_000 } else { 6_000_000 }, max_len: 80 }, smallbuf: false },
         Job { sub: "long", kind: JobKind::Enum { f: c17_long_enum, bound: "sibling routes on paths of every length 2..399 (thorough: ..879), with and without a prefix, probed with the exact path, one-byte extensions, a truncation, 3 methods, origin and absolute form" }, smallbuf: false },
+        Job { sub: "authority", kind: JobKind::Enum { f: c17_authority_enum, bound: "absolute-form requests with an authority of every length 0..300 and within 24 of 2^10, 2^12, 2^15, 2^16, 2^17 (thorough: also 2^20, 2^24), ASCII and two-byte characters, x 2 prefixes x 6 paths" }, smallbuf: false },
         Job { sub: "small", kind: JobKind::Enum { f: c17_small_enum, bound: "4 prefixes x all ordered route tables of <= 2 (quick) / <= 3 (thorough) registrations over 3 methods x 10 paths (duplicates included) x all requests over the same alphabet in origin-form and three absolute forms (one with a non-ASCII authority), with and without the prefix" }, smallbuf: false },
     ]
 }
@@ -1392,9 +1504,9 @@ fn c17_plan(tier: Tier) -> Vec<Job> {
 pub fn c17() -> PropDef {
     PropDef {
         id: "C17",
-        subs: vec![("tables", c17_tables), ("small", c17_small), ("long", c17_long)],
+        subs: vec![("tables", c17_tables), ("small", c17_small), ("long", c17_long), ("authority", c17_authority)],
         plan: c17_plan,
-        rule: "case = (prefix, 0..8 registrations over 3 methods x 10 paths incl. prefixes of one another, ':' and empty, requests in origin/absolute form); handlers record invocations and return distinguishable responses; oracle = model map (method, prefix+path) -> first registered handler, exactly-one-invocation with the caller's argument, 404 otherwise, Server/Content-Type stamp read back by the independent response reader; non-trivial = >=2 routes that share a path, a method or a path prefix (or a duplicate) and at least one request evaluated",
+        rule: "case = (prefix, 0..8 registrations over 3 methods x 10 paths incl. prefixes of one another, ':' and empty, requests in origin/absolute form); handlers record invocations and return distinguishable responses; oracle = model map (method, prefix+path) -> first registered handler, exactly-one-invocation with the caller's argument, 404 otherwise, Server/Content-Type stamp read back by the independent response reader; non-trivial = >=2 routes that share a path, a method or a path prefix (or a duplicate) and at least one request evaluated; identities of 0..12 characters over an alphabet with HTAB, C0/DEL, lone CR/LF, NBSP, ':' ; sub 'authority': absolute-form requests with an authority of every length 0..300 and around 2^10..2^17 (thorough 2^24)",
         assumptions: vec![],
         single_threaded_world: false,
     }
@@ -1851,7 +1963,7 @@ pub fn c05() -> PropDef {
         id: "C05",
         subs: vec![("build", c05_build), ("seq", c05_seq), ("lengths", c05_lengths), ("allow", c05_allow)],
         plan: c05_plan,
-        rule: "case = 1..6 responses, each (version, status, <=12 builder calls with generated arguments; bodies 0..64 KiB incl. CRLFCRLF / status-line look-alikes) + a chunking/interrupting sink pattern; oracle = byte-exact serialisation model, the length rule over all 11 statuses, round-trip of the concatenation through the independent response reader, sink-independence; non-trivial = >=2 builder calls, a body containing CRLFCRLF or status-like text, or >=2 concatenated responses",
+        rule: "case = 1..6 responses, each (version, status, <=12 builder calls with generated arguments; bodies 0..64 KiB incl. CRLFCRLF / status-line look-alikes) + a chunking/interrupting sink pattern; oracle = byte-exact serialisation model, the length rule over all 11 statuses, round-trip of the concatenation through the independent response reader, sink-independence; non-trivial = >=2 builder calls, a body containing CRLFCRLF or status-like text, or >=2 concatenated responses; before a response is written it may first be written into a sink that breaks after 0..199 bytes (accepted bytes are a prefix, the failure is reported, later writes unaffected)",
         assumptions: vec![
             "server strings contain no CR/LF (a CR/LF in an application-chosen header value is a caller error)",
             "sequences using set_content_length (outside the property's call list) are checked for exact bytes only",
@@ -2282,7 +2394,7 @@ pub fn c14() -> PropDef {
         id: "C14",
         subs: vec![("diff", c14_diff), ("edit", c14_edit), ("raw", crate::props::raw::c14_raw), ("lengths", c14_lengths), ("linelen", c14_linelen)],
         plan: c14_plan,
-        rule: "case = one byte slice from the request grammar with corruptions, with/without trailing bytes or truncation; oracle = differential between Request::try_from and an HttpConnection fed the slice (payload limit 2^32-1, whole-window reads): forward (accepted => same first request), converse (exactly one request with nothing left => accepted with the same fields, except GET declaring a body), and the max_len rule at len-1/len/len+1; REF referees comparability (line limit); non-trivial = the slice has >=1 byte after its first CRLF beyond the blank line",
+        rule: "case = one byte slice from the request grammar with corruptions, with/without trailing bytes or truncation; oracle = differential between Request::try_from and an HttpConnection fed the slice (payload limit 2^32-1, whole-window reads): forward (accepted => same first request), converse (exactly one request with nothing left => accepted with the same fields, except GET declaring a body), and the max_len rule at len-1/len/len+1; REF referees comparability (line limit); non-trivial = the slice has >=1 byte after its first CRLF beyond the blank line; sub 'linelen': 4 line kinds x every line length 1..B+3 x 8 placements of read boundaries around the line's CR LF x idle read or not, for B=1024 and B=32",
         assumptions: vec!["slices whose first request has a line longer than the receive window are outside the comparable set (the statement says 'within the line and payload limits')"],
         single_threaded_world: false,
     }
